@@ -34,7 +34,7 @@ def run(ctx):
         ctx.extra["engine_divergences_local_minima"] = sorted({fl["clause"] for fl in r.fails})
     jobs = []
     for k in range(12 if q else 32):
-        jobs.append({"variant": "plain" if k % 2 == 0 else "hi", "args": {"seed": s * 1000 + k, "n": 5 if q else 25, "R": 32, "ncomp": 6 if q else 14, "npts": 100}, "out": ctx.path("repr_%02d.ndjson" % k)})
+        jobs.append({"variant": "plain" if k % 2 == 0 else "hi", "args": {"seed": s * 1000 + k, "n": 6 if q else 40, "R": 32, "ncomp": 6 if q else 14, "npts": 100}, "out": ctx.path("repr_%02d.ndjson" % k)})
     run_jobs(jobs)
     res = core.validate_traces("ReprTrace", "ReprTrace.cfg", [j["out"] for j in jobs], timeout=2400)
     byf = {j["out"]: j for j in jobs}
